@@ -553,7 +553,12 @@ class BaseParser:
                     if k in _data and not options.ignore_alias_conflicts and _data[k] != v:
                         # two case variants of the same key with different values
                         field = self.get_field(k)
-                        if field and not field.is_no_input(v, options=options):
+                        if (
+                            field
+                            and not field.is_no_input(v, options=options)
+                            # an earlier variant that is not taken as input is just replaced (like data first)
+                            and not field.is_no_input(_data[k], options=options)
+                        ):
                             name = field.attname if as_attname else field.name
                             context.handle_error(exc.AliasConflictError(item=name, value=v))
                             continue
